@@ -101,6 +101,29 @@ def _start_fields(rec: dict) -> dict:
             "node_semantic_id_keys": sorted(ns) == sorted(set(uuids))}
 
 
+_SRC_RE = re.compile(r"^rs_src_(\d+)\.csv$")
+
+
+def _write_run_space_sources(text: str, dirpath: str) -> None:
+    """A run_space block may name a source file by a path RELATIVE to the configuration file; the generator only uses
+    names of the form rs_src_<n>.csv, whose content (n rows of column rs_extra) is determined by the name."""
+    import yaml
+
+    try:
+        doc = yaml.safe_load(text)
+    except Exception:
+        return
+    spaces = [doc.get("run_space"), (doc.get("pipeline") or {}).get("run_space") if isinstance(doc.get("pipeline"), dict) else None]
+    for rs in spaces:
+        for blk in (rs or {}).get("blocks", []) if isinstance(rs, dict) else []:
+            src = blk.get("source") if isinstance(blk, dict) else None
+            name = src.get("path") if isinstance(src, dict) else None
+            m = _SRC_RE.match(name) if isinstance(name, str) else None
+            if m:
+                with open(os.path.join(dirpath, name), "w", encoding="utf-8") as fh:
+                    fh.write("rs_extra\n" + "".join(f"{1.5 + i}\n" for i in range(int(m.group(1)))))
+
+
 def identity_tuple(text: str, scratch: str, ctx: dict, data, *, cli_run: bool = False) -> dict:
     """Flat {"<path>.<identity>": value}.  Raises when the configuration cannot be built at all."""
     import yaml
@@ -117,6 +140,7 @@ def identity_tuple(text: str, scratch: str, ctx: dict, data, *, cli_run: bool = 
     fd, path = tempfile.mkstemp(suffix=".yaml", prefix="cfg-", dir=scratch)
     with os.fdopen(fd, "w", encoding="utf-8") as fh:
         fh.write(text)
+    _write_run_space_sources(text, os.path.dirname(path))
     # ---- path 1: inspection payload
     doc = yaml.safe_load(text)
     payload = json.loads(json.dumps(build_inspection_payload(doc), default=repr))
@@ -219,6 +243,16 @@ def cli_run_fields(path: str, ctx: dict, scratch: str, has_run_space: bool) -> d
     for i, s in enumerate(read_starts(out)[:3]):
         for k, v in s.items():
             T[f"clirun{i + 1}.{k}"] = v
+    if has_run_space and os.path.exists(out):
+        with open(out, encoding="utf-8") as fh:
+            for line in fh:
+                try:
+                    r = json.loads(line)
+                except Exception:
+                    continue
+                if r.get("record_type") == "run_space_start":
+                    T["clirun1.run_space_spec_id"] = r.get("run_space_spec_id")
+                    break
     if os.path.exists(out):
         os.unlink(out)
     return T
@@ -386,6 +420,7 @@ def cli_subprocess_pair(text: str, ctx: dict, scratch: str, has_run_space: bool,
     fd, path = tempfile.mkstemp(suffix=".yaml", prefix="clisub-", dir=scratch)
     with os.fdopen(fd, "w", encoding="utf-8") as fh:
         fh.write(text)
+    _write_run_space_sources(text, os.path.dirname(path))
     env = boot.child_env({"PYTHONHASHSEED": hashseed})
     T: dict = {}
     p = subprocess.run([sys.executable, "-m", "semantiva.cli", "inspect", path, "--extended", "-q"], env=env, cwd=scratch,
